@@ -206,6 +206,14 @@ class Engine:
     # --- verification of one spec
     def verify(self, spec: Spec, log=None):
         """returns list of Obligation (all paths, all configs) + diagnostics"""
+        all_obs, diags = [], []
+        for cfg in spec.configs():
+            obs, d = self.verify_cfg(spec, cfg)
+            all_obs.extend(obs)
+            diags.append(d)
+        return all_obs, diags
+
+    def verify_cfg(self, spec: Spec, cfg):
         self.current = spec
         for k, ls in getattr(spec, "loops", {}).items():
             self.loop_specs[k] = ls
@@ -214,7 +222,7 @@ class Engine:
         func = spec.func
         body_func = getattr(func, "__wrapped__", None) if inspect.isgeneratorfunction(
             getattr(func, "__wrapped__", None) or (lambda: 0)) else None
-        for cfg in spec.configs():
+        if True:
             label = spec.cfg_label(cfg)
 
             def run_once(prefix, cfg=cfg, label=label):
@@ -243,15 +251,22 @@ class Engine:
                     wlog = []
                     if fr is not None:
                         cx.write_logs.append(wlog)
+                        preexisting = _reachable_ids(st.get("args", ()), st.get("kwargs", {}))
                     try:
-                        val = it.call_function(func, st.get("args", ()), st.get("kwargs", {})) \
-                            if is_repo_function(func) else it.call(func, st.get("args", ()), st.get("kwargs", {}))
+                        gen = getattr(func, "__wrapped__", None)
+                        if gen is not None and inspect.isgeneratorfunction(gen):
+                            # a @contextmanager: run the generator body with the with-block supplied by the spec
+                            val = it.call_function(gen, st.get("args", ()), st.get("kwargs", {}), yield_body=st["body"])
+                        elif is_repo_function(func):
+                            val = it.call_function(func, st.get("args", ()), st.get("kwargs", {}))
+                        else:
+                            val = it.call(func, st.get("args", ()), st.get("kwargs", {}))
                         out = Outcome("return", value=val)
                     except SymRaise as r:
                         out = Outcome("raise", exc=r.exc, node=r.node)
                     if fr is not None:
                         cx.write_logs.remove(wlog)
-                        self._check_frame(cx, spec, st, fr, wlog)
+                        self._check_frame(cx, spec, st, fr, [w for w in wlog if w[0] == "local" or w[1] in preexisting])
                     cx.outcome = out
                     tag = spec.target.split(":")[-1]
                     rs = spec.raises(cx, st)
@@ -285,7 +300,7 @@ class Engine:
                           "oos": [str(c.oos) + " @ " + str(c.oos.where) for c in cxs if getattr(c, "oos", None)],
                           "cxs": cxs})
         self.current = None
-        return all_obs, diags
+        return all_obs, diags[0]
 
     def _check_frame(self, cx, spec, st, frame, writes):
         allowed = set()
@@ -297,6 +312,29 @@ class Engine:
             if w not in allowed and (w[0], w[1], None) not in allowed:
                 cx.prove(f"frame:{w[0]}:{w[2] if len(w) > 2 else ''}", z3.BoolVal(False),
                          assume_after=False, meta={"write": repr(w)})
+
+
+def _reachable_ids(*roots):
+    """ids of the heap objects reachable from the arguments (objects allocated by the call are exempt
+    from the frame condition)"""
+    seen = set()
+    stack = list(roots)
+    while stack:
+        v = stack.pop()
+        if id(v) in seen:
+            continue
+        if isinstance(v, SymObj):
+            seen.add(id(v))
+            stack.extend(v.f.values())
+        elif isinstance(v, dict):
+            seen.add(id(v))
+            stack.extend(v.values())
+        elif isinstance(v, (list, tuple, set, frozenset)):
+            seen.add(id(v))
+            stack.extend(v)
+        elif isinstance(v, Symbolic):
+            seen.add(id(v))
+    return seen
 
 
 def loc_field(obj, name):
